@@ -377,7 +377,7 @@ def engine_obs(prog, s, w, results, nm, base_items=1):
     o += f"|sealed={'true' if nm.b(sealed_flag(prog, w)) else 'false'}"
     o += f"|earlier={'kept' if nm.i(w.outbuf.abs) == 0 else 'lost'}"
     fr = []
-    for it in w.outbuf.items[base_items:]:
+    for it in [x for x in w.outbuf.items if x.get('kind') != 'earlier']:
         if it['kind'] == 'method':
             name = engine_cls_name(prog, it['class'], nm)
             extra = ''
